@@ -3,3 +3,4 @@ import Pxv.Thm.C14
 import Pxv.Model.Session
 import Pxv.Model.SessionSpec
 import Pxv.Thm.C11
+import Pxv.Thm.C12
